@@ -1,3 +1,4 @@
+import Martian.Props.C05.Facts
 import Martian.Lemmas.Proxy
 import Martian.Lemmas.ProxyTrace
 import Martian.Lemmas.ProxyState
